@@ -488,8 +488,8 @@ func c17Body(rc *RunCtx) {
 				if b, ok := disk.ReadRaw(filepath.Join(c17Home, "logs", name)); ok {
 					size = int64(len(b))
 				}
-				ends := []int64{-1, 0, size / 2, size, size + 10}
-				r := &c17Read{Name: name, End: ends[simrt.Choose(len(ends))], Len: []int64{100, 1, 10, 100000}[simrt.Choose(4)]}
+				ends := []int64{-1, 0, size / 2, size, size + 10, int64(simrt.Choose(int(size) + 1)), int64(simrt.Choose(int(size) + 1))}
+				r := &c17Read{Name: name, End: ends[simrt.Choose(len(ends))], Len: []int64{100, 1, 10, 100000, 2, 3, 7}[simrt.Choose(7)]}
 				d.addRead(r)
 				simrt.SetOp(9000 + i)
 				func() {
@@ -678,6 +678,14 @@ func c17After(rc *RunCtx, res *simrt.Result) {
 			ln := hs[0].line
 			if !reLineTS.MatchString(ln) || strings.Count(ln, "tok-") != 1 || !strings.Contains(ln, c.ID) {
 				viol("torn-line", fmt.Sprintf("call #%d: its line is not whole: %q", c.N, ln))
+			}
+			// the line says at which level it was logged (and carries no other level's tag)
+			tag := map[string]string{"Error": "[Error]", "Errorf": "[Error]", "Warn": "[Warn]", "Warnf": "[Warn]", "Info": "[Info]", "Infof": "[Info]", "Infoln": "[Info]", "Debug": "[Debug]", "Debugf": "[Debug]"}[c.Method]
+			for _, tg := range []string{"[Error]", "[Warn]", "[Info]", "[Debug]"} {
+				if strings.Contains(ln, tg) != (tg == tag) {
+					viol("torn-line", fmt.Sprintf("call #%d (%s): its line carries the wrong level tag: %q", c.N, c.Method, ln))
+					break
+				}
 			}
 			// file name: id, object name and the date shown by the clock at (or within two cycles before) the call
 			okName := false
